@@ -3,6 +3,7 @@ from common import cz
 from plotink import ebb_calc
 from props import ebbgen
 
+import common
 ID = "C17"
 COQ_HEADER = "From Plotink Require Import Base.Prelude Corr.C17.\nOpen Scope Z_scope."
 COQ_RUN = "run17"
@@ -60,3 +61,8 @@ def shrink(c):
             d = dict(c); d[key] = nv
             if nv != v and d["T"] >= 1 and (ebbgen.t3_in_domain(d["T"], d["rate"], d["accel"], d["jerk"]) or c["family"].startswith("limit/")):
                 yield d
+
+
+def static_obligations(work, tier):
+    """rate_t3 and max_rate_t3 are re-translated from /repo's source on every run (integer/rational mode) and proved equal to the model"""
+    return common.kernel_obligations(work, ID, "plotink/ebb_calc.py", ["rate_t3", "max_rate_t3"], mode="zq")
